@@ -19,6 +19,8 @@ LEVEL_TEXT = ("all orderings x failure masks x windows x several configured weig
               "multi-objective keys (incl. negative objective weights), window validation, and weight rows of real evaluations with 1-3 filters; bounded, not a proof")
 LEVEL_NOTE = "trusted: vlib.models.check_sort_weights; ties accepted in any consistent order; realizations with configured weight 0 are invisible to the weight oracle"
 ANCHOR_FILES = ["src/ropt/plugins/realization_filter/default.py", "src/ropt/ensemble_evaluator/_ensemble_evaluator.py"]
+EXECUTION_COUNTERS = ["sort.calls"]   # executions of the oracle inside the cases (reported as coverage.evaluations)
+CONTRACT_GROUPS = ['C05']   # icontract layer (vlib/contracts.py) active inside the workload and in the repository's own tests
 RULE = ("case = (n, failure mask, flavour, weight-vector id) with all windows and all orderings of the successful values inside (exhaustive part), "
         "or one sampled configuration; non-trivial if at least one realization succeeded; sub-evaluations in monitor_counters.sort.calls")
 ASSUMPTIONS = ["failed realizations reach filters as all-NaN rows",
